@@ -135,7 +135,7 @@ def shrink_seq(tool, ctx, c, target):
 
 
 def strip_obs(o):
-    return {k: v for k, v in o.items() if k not in ("calls", "alive", "synced")}
+    return {k: v for k, v in o.items() if k not in ("calls", "alive", "synced", "ticks")}
 
 
 def reeval(tool, ctx, cases):
@@ -164,7 +164,7 @@ def run_monitors(ctx, tool, cases, stats, do_shrink=True):
             unsynced = [i for i, o in enumerate(c["ops"]) if not o.get("synced", True)]
             if unsynced:
                 stats["unsynced_ops"] = stats.get("unsynced_ops", 0) + len(unsynced)
-            vs = L.monitor_seq(c)
+            vs = L.monitor_seq(c) + L.loop_timing(c)
             for v in vs:
                 key = json.dumps(v["cls"], sort_keys=True)
                 stats.setdefault("monitor_classes", {})
@@ -190,6 +190,7 @@ def coverage(ctx, cases, stats):
     sq = [c for c in cases if c["kind"] == "seq"]
     nobs = sum(len(c.get("obs") or []) for c in ex)
     ticks = [o for c in sq for o in c["ops"] if o["op"] in ("tick", "boot")]
+    ticks += [{"calls": t["calls"]} for c in sq for o in c["ops"] if o["op"] == "loop" for t in (o.get("ticks") or [])]
     kinds = {}
     for c in sq:
         for o in c["ops"]:
@@ -223,6 +224,9 @@ def coverage(ctx, cases, stats):
     ctx.cov["daemon"] = {"histories": len(sq), "ops": kinds, "ticks": len(ticks), "ticks_with_calls": sum(1 for o in ticks if o["calls"]),
                          "calls": sum(len(o["calls"]) for o in ticks), "daemon_deaths": sum(1 for c in sq if any(not o["alive"] for o in c["ops"][1:])),
                          "boots_through_Scheduler_Start": kinds.get("boot", 0),
+                         "own_loop_runs": kinds.get("loop", 0),
+                         "own_loop_ticks": sum(len(o.get("ticks") or []) for c in sq for o in c["ops"] if o["op"] == "loop"),
+                         "own_loop_real_clock_runs": sum(1 for c in sq for o in c["ops"] if o["op"] == "loop" and o.get("real")),
                          "watcher_process_crashes": sum(1 for c in sq if c.get("crashed", -1) >= 0),
                          "unsynced_ops": stats.get("unsynced_ops", 0),
                          "monitor_classes": stats.get("monitor_classes", {})}
